@@ -8,9 +8,10 @@ kf = json.load(open(kfp))
 have = {(f.get("property"), f.get("id")) for f in kf["findings"]}
 for p in sorted(glob.glob(os.path.join(V, "known_findings.d", "*.json"))):
     x = json.load(open(p))
-    for f in (x if isinstance(x, list) else [x]):
-        key = (f.get("property"), f.get("id"))
-        kf["findings"] = [g for g in kf["findings"] if (g.get("property"), g.get("id")) != key] + [f]
+    fl = (x if isinstance(x, list) else [x])
+    ids = {(f.get("property"), f.get("id")) for f in fl}
+    # a draft file is authoritative for the ids it mentions (several entries may share an id, one per signature)
+    kf["findings"] = [g for g in kf["findings"] if (g.get("property"), g.get("id")) not in ids] + fl
     if "--fold" in sys.argv:
         os.remove(p)
 json.dump(kf, open(kfp, "w"), indent=1)
